@@ -23,8 +23,9 @@ type verifRecH struct {
 func verifRowsH(sym bool) []verifRecH {
 	rows := []verifRecH{{ID: 1, Name: "a", Tags: []int32{1, 2}}, {ID: 2, Name: "bc"}}
 	if sym {
-		rows[0].ID = vI64("id")
-		rows[1].Tags = []int32{vI32("tag")}
+		// one symbolic byte: enough to make the file contents a solver matter
+		// while the CRC-32 of the page stays cheap to reason about
+		rows[0].Name = vString("name", 1)
 	}
 	return rows
 }
@@ -61,9 +62,13 @@ func verifOptsH(bufferless, v1 bool) []WriterOption {
 func VerifH_C14_wholeWriterSinkFaults() {
 	vUnwind(1 << 16)
 	bufferless := vChoose("writeBufferOff", 0, 1) == 1
-	flushMid := vChoose("flushBetween", 0, 1) == 1
+	flushMid := vTier() > 0 && vChoose("flushBetween", 0, 1) == 1
+	// symbolic row values were tried at tier 1: every page header then has five
+	// possible lengths and each fault class costs seconds of CRC reasoning
+	// (25 minutes in total) without reaching any code the concrete rows do not
+	const symbolic = false
 	opts := verifOptsH(bufferless, false)
-	rows := verifRowsH(false)
+	rows := verifRowsH(symbolic)
 	// reference run: how long is the complete file
 	ref := new(bytes.Buffer)
 	if err := verifWriteH(ref, rows, opts, flushMid); err != nil {
@@ -71,7 +76,19 @@ func VerifH_C14_wholeWriterSinkFaults() {
 		return
 	}
 	total := ref.Len()
-	sink := &verifSink{limit: vChoose("faultAt", 0, total), shortOnly: vChoose("shortWrite", 0, 1) == 1}
+	// The fault offset is a case split, one path per offset. (A symbolic offset
+	// was tried: the short count flows into the writer's offset tracking and from
+	// there into every variable-length footer field, which forks more than the
+	// case split does.) With symbolic row values the split is over boundary
+	// classes only, since every page header then has five possible lengths.
+	limit := 0
+	if symbolic {
+		classes := []int{0, 1, 4, total / 2, total - 9, total - 8, total - 4, total - 1, total}
+		limit = classes[vChoose("faultClass", 0, len(classes)-1)]
+	} else {
+		limit = vChoose("faultAt", 0, total)
+	}
+	sink := &verifSink{limit: limit, shortOnly: vChoose("shortWrite", 0, 1) == 1}
 	err := verifWriteH(sink, rows, opts, flushMid)
 	if sink.limit < total {
 		vAssert(sink.refused, "the sink was asked for the refused byte")
@@ -144,7 +161,7 @@ func verifSameH(a, b []verifRecH) bool {
 
 func VerifH_C14_truncatedFileRejected() {
 	vUnwind(1 << 16)
-	rows := verifRowsH(false)
+	rows := verifRowsH(vTier() > 0)
 	ref := new(bytes.Buffer)
 	if err := verifWriteH(ref, rows, verifOptsH(false, vChoose("v1", 0, 1) == 1), false); err != nil {
 		vAssert(false, "reference run succeeds")
@@ -166,7 +183,7 @@ func VerifH_C14_truncatedFileRejected() {
 
 func VerifH_C14_readAtFaultsSurface() {
 	vUnwind(1 << 16)
-	rows := verifRowsH(false)
+	rows := verifRowsH(true)
 	ref := new(bytes.Buffer)
 	if err := verifWriteH(ref, rows, nil, false); err != nil {
 		vAssert(false, "reference run succeeds")
